@@ -95,6 +95,7 @@ func (ps *randomPeerSelector) next() *peers.Peer {
 
 		// get random item from other peers
 		nextID = otherPeers[rand.Intn(len(otherPeers))]
+		nextID = simPick(nextID, otherPeers)
 	}
 
 	peer := ps.selectablePeersMap[nextID].peer
